@@ -306,16 +306,6 @@ impl Monitors {
                 }
             }
             self.cum_acked_bytes = self.cum_acked_bytes.max(cum);
-            if let Some(ps) = self.probe_seq {
-                if self.tx.get(&ps).map(|t| t.acked).unwrap_or(false) {
-                    self.probe_seq = None;
-                    if self.popped_probe == Some(ps) {
-                        // the peer holds the probe in its original size, the sender has already re-cut it
-                        self.desync = true;
-                    }
-                    self.popped_probe = None;
-                }
-            }
             if let Some(fs) = self.fin_seq {
                 if sdist(h.ack, fs) >= 0 {
                     self.fin_acked_by_peer = true;
@@ -328,10 +318,21 @@ impl Monitors {
                         if let Some(t) = self.tx.get_mut(&s) {
                             if !t.acked {
                                 t.acked = true;
+                                newly += t.len as u64;
                                 self.largest_payload_acked = self.largest_payload_acked.max(t.len);
                             }
                         }
                     }
+                }
+            }
+            if let Some(ps) = self.probe_seq {
+                if self.tx.get(&ps).map(|t| t.acked).unwrap_or(false) {
+                    self.probe_seq = None;
+                    if self.popped_probe == Some(ps) {
+                        // the peer holds the probe in its original size, the sender has already re-cut it
+                        self.desync = true;
+                    }
+                    self.popped_probe = None;
                 }
             }
             if newly > 0 {
@@ -1308,7 +1309,8 @@ impl Monitors {
             }
         }
         // the peer could send, but was told a zero window while the buffer has room for a segment, and nothing is armed
-        if oa.state == "established" && w.done.is_none() && w.reader.is_some() && !w.d.is_set() {
+        let receiving = oa.state == "established" || oa.state == "fin-wait-1" || oa.state == "fin-wait-2";
+        if receiving && !self.fin_from_peer_seen && w.done.is_none() && w.reader.is_some() && !w.d.is_set() {
             let free = w.cfg.rx_buf.saturating_sub(oa.rx_queue_bytes + oa.rx_ooq_bytes);
             if self.last_adv_wnd == 0 && free >= oa.mss as usize && oa.timers[2].is_none() && rec.rejected.is_empty() && !matches!(act, Some(Act::TransportPendingOnce)) && !matches!(act, Some(Act::Deliver2(..))) {
                 v.push(f(
